@@ -28,6 +28,7 @@ class Provenance:
     def __init__(self, carried=None):
         self.carried = dict(carried or {})  # loop-carried symbol -> abstract value of its initial tensor
         self.leaves = []
+        self.narrowed = []  # (cast term, abstract value before it): computed in an unrelated float dtype, converted to the data's dtype afterwards
 
     def blame(self, t, why):
         self.leaves.append((t, why))
@@ -131,6 +132,25 @@ class Provenance:
         return False
 
     @staticmethod
+    def all_int(v):
+        """a (nested) list of Python integers / integer-valued index expressions"""
+        if isinstance(v, (list, tuple)):
+            return all(Provenance.all_int(x) for x in v)
+        if isinstance(v, bool):
+            return False
+        if isinstance(v, int):
+            return True
+        if isinstance(v, Sym):
+            return "int" in v.tags
+        if isinstance(v, Op) and v.op in ("size", "numel", "len", "py_int", "py_ceil", "py_floor"):
+            return True
+        if isinstance(v, Op) and v.op in ("getitem", "index") and isinstance(v.args[0], Op) and v.args[0].op in ("size", "attr_shape"):
+            return True
+        if isinstance(v, Op) and v.op in ("add", "sub", "mul", "mod", "floordiv", "neg"):
+            return all(Provenance.all_int(x) for x in v.args if not isinstance(x, dict))
+        return False
+
+    @staticmethod
     def is_data_dtype(d):
         """dtype=dtype (the requested dtype), dtype=x.dtype, dtype=self.dtype"""
         if isinstance(d, Sym):
@@ -168,6 +188,8 @@ class Provenance:
                 inner = self.of(list(v))
                 if inner in (DATA, DEFAULT, FIXED):
                     return inner
+                if self.all_int(v):
+                    return INDEX
                 self.blame(t, f"{op}([...]) of Python numbers without dtype")
                 return DEFAULT
             return SCALAR
@@ -181,10 +203,12 @@ class Provenance:
         for x in targets:
             if isinstance(x, (Op, Sym)) and not self.is_device(x):
                 if self.is_data_dtype(x):
+                    self.note_narrow(t)
                     return DATA
                 if isinstance(x, Sym) and ("tensor" in x.tags or "buffer" in x.tags or "carried" in x.tags) or isinstance(x, Op):
                     v = self.of(x)
                     if v == DATA:
+                        self.note_narrow(t)
                         return DATA
                     if v in (DEFAULT, FIXED):
                         return v
@@ -193,6 +217,13 @@ class Provenance:
                 return FIXED
         # device-only cast (or nothing recognisable): dtype unchanged
         return self.of(a[0])
+
+    def note_narrow(self, t):
+        n = len(self.leaves)
+        inner = self.of(t.args[0])
+        del self.leaves[n:]
+        if inner in (DEFAULT, FIXED):
+            self.narrowed.append((t, inner))
 
     @staticmethod
     def is_device(x):
